@@ -1,3 +1,8 @@
 import Driver.NodesMain
-/-! Driver for C08: node-level correspondence + "a defined bit is never contradicted by a concretisation". -/
-def main : IO Unit := Drv.run true
+import Driver.C08Mem
+/-! Driver for C08: node-level correspondence + "a defined bit is never contradicted by a concretisation".
+    The harness header line names the stream; the `mem` stream has its own protocol (`Driver/C08Mem.lean`). -/
+def main : IO Unit := do
+  let stdin ← IO.getStdin
+  let first ← stdin.getLine
+  if (first.splitOn "mode=mem").length > 1 then MemDrv.run else Drv.run true
